@@ -680,6 +680,12 @@ class Resolver:
                 return self.fn.cls.qname
             q = self.callee_qname(expr)
             if q is None:
+                # `self.factory(...)` where the class declares `factory: type[C] = C`
+                f = expr.func
+                if isinstance(f, ast.Attribute) and isinstance(f.value, ast.Name) and f.value.id in ("self", "cls") and self.fn.cls is not None:
+                    for c in self.prog.mro_classes(self.fn.cls.qname):
+                        if f.attr in c.ann and "type[" in unparse(c.ann[f.attr]).replace("Type[", "type["):
+                            return self._ann_to_type(c.ann[f.attr], c.module)
                 return None
             if q in self.prog.classes:
                 return q
